@@ -400,3 +400,49 @@ func H13e() {
 	}
 	vReached("end")
 }
+
+// H13f: two local types defined with opposite byte orders, both carrying a
+// timestamp (253) and a uint16 field; records of the two alternate. Every
+// record's multi-byte fields are read in the byte order of its own local
+// type's definition, whichever definition was parsed last.
+func H13f() {
+	a, b := vParam("a"), vParam("b")
+	lastDefBig := vBool() // which of the two definitions comes last
+	defLE := func(l int) []byte { return []byte{0x40 | byte(l), 0, 0, 20, 0, 2, 253, 4, 0x86, 7, 2, 0x84} } // record: timestamp, power
+	defBE := func(l int) []byte { return []byte{0x40 | byte(l), 0, 1, 0, 20, 2, 253, 4, 0x86, 7, 2, 0x84} }
+	var s []byte
+	if lastDefBig {
+		s = append(append(s, defLE(a)...), defBE(b)...)
+	} else {
+		s = append(append(s, defBE(b)...), defLE(a)...)
+	}
+	var ts [3]uint32
+	var pw [3]uint16
+	for i := 0; i < 3; i++ {
+		ts[i], pw[i] = vU32(), vU16()
+		vAssume(ts[i] != 0xFFFFFFFF && pw[i] != 0xFFFF)
+		if i == 1 { // the big-endian slot
+			s = append(s, byte(b), byte(ts[i]>>24), byte(ts[i]>>16), byte(ts[i]>>8), byte(ts[i]), byte(pw[i]>>8), byte(pw[i]))
+		} else {
+			s = append(s, byte(a), byte(ts[i]), byte(ts[i]>>8), byte(ts[i]>>16), byte(ts[i]>>24), byte(pw[i]), byte(pw[i]>>8))
+		}
+	}
+	var d decoder
+	f, _ := NewFile(FileTypeActivity, NewHeader(V20, true))
+	d.file = f
+	var buf [64]byte
+	copy(buf[:], s)
+	vFeed(&d, buf[:])
+	d.bytes.limit = len(s)
+	err := d.decodeFileData()
+	vAssert(err == nil && d.bytes.n == len(s), "C13.order.sequence-decodes")
+	act, _ := f.Activity()
+	ok := len(act.Records) == 3
+	if ok {
+		for i := 0; i < 3; i++ {
+			ok = ok && act.Records[i].Power == pw[i] && act.Records[i].Timestamp.Equal(decodeDateTime(ts[i]))
+		}
+	}
+	vAssert(ok, "C13.order.each-record-read-in-its-own-definitions-byte-order")
+	vReached("end")
+}
